@@ -56,10 +56,45 @@ def guardAllowed : List (String × String × String × String) := [
 def guardsOK (r : FieldFact) (phase : String) (gs : List String) : Bool :=
   gs.all fun g => guardAllowed.contains (r.ty, r.field, phase, g)
 
+/-! ### aliasing
+
+`clone = "copy"` / `"byValue"` means the field is copied by plain assignment. For a slice, a map
+or a pointer that is a *shared* object: the snapshot that raft persists later, concurrently with
+further Apply calls, sees whatever those calls write through it (`append(s[:i], s[i+1:]...)`,
+`s[i].F = …`, `p.F = nil`). Such a field counts as cloned only if it is recorded here with the
+reason why nothing ever writes through it. -/
+
+def isRefKind (k : String) : Bool := k.startsWith "[]" || k.startsWith "map[" || k.startsWith "*"
+
+/-- (struct, field): shared by `clone`, and never written through -/
+def aliasAllowed : List (String × String) := [
+  -- transient: the ops cache is re-attached on Restore, the SQLite handle is external
+  ("Data", "OpsMap"), ("Data", "SQLite"),
+  -- string / id lists fixed when the object is created; the holder is replaced as a whole or dropped
+  ("ShardKeyInfo", "ShardKey"), ("ColStoreInfo", "PrimaryKey"), ("ColStoreInfo", "SortKey"), ("ColStoreInfo", "PropertyKey"),
+  ("ColStoreInfo", "PropertyValue"), ("SubscriptionInfo", "Destinations"), ("DownSampleOperators", "AggOps"),
+  -- the operator / policy lists of a down-sample policy: set by CreateDownSamplePolicy, cleared by assigning nil to the
+  -- holder's field (the holder itself is copied by RetentionPolicyInfo.Clone since the `fix:` of the shallow clones)
+  ("DownSamplePolicyInfo", "Calls"), ("DownSamplePolicyInfo", "DownSamplePolicies"),
+  -- the partition of a migrate event: built by CreateEvent, UpdateEvent only changes the event's own two state words
+  ("DbPtInfo", "Pti"), ("DbPtInfo", "Shards"), ("DbPtInfo", "DBBriefInfo")
+]
+
+/-- shared by `clone` *and* written through by commands (finding
+`replication_state_shared_with_snapshot`): the replica groups of a database and the clear-info of
+an index group are edited in place by the replication commands (the subject of C05). -/
+def aliasKnown : List (String × String) := [
+  ("Data", "ReplicaGroups"), ("ReplicaGroup", "Peers"), ("IndexGroupInfo", "ClearInfo"), ("ReplicaClearInfo", "ClearPeers")
+]
+
+def aliased (r : FieldFact) : Bool := isRefKind r.kind && (r.clone == "copy" || r.clone == "byValue")
+
+def aliasOK (r : FieldFact) : Bool := !aliased r || aliasAllowed.contains (r.ty, r.field) || aliasKnown.contains (r.ty, r.field)
+
 /-- `clone` copies the field on every path: not missing, not placed after an early return, not
-under a condition on something else -/
+under a condition on something else, and not as a shared reference that commands write through -/
 def cloneKeeps (r : FieldFact) : Bool :=
-  r.clone != "none" && !r.clone.startsWith "afterReturn" && guardsOK r "clone" r.cloneGuard
+  r.clone != "none" && !r.clone.startsWith "afterReturn" && guardsOK r "clone" r.cloneGuard && aliasOK r
 
 /-- the value reaches the protobuf message, unconditionally -/
 def marshalKeeps (r : FieldFact) : Bool := !r.marshalTo.isEmpty && guardsOK r "marshal" r.marshalGuard
